@@ -17,12 +17,16 @@ LEVEL_TEXT = ("Bounded contract on the real is_type_compatible / Pipeline type v
               "introspection (get_origin/get_args/isinstance on annotation objects), which has no semantics in the "
               "proof rung: no deductive part ('exploration').")
 LEVEL_TEXT += (" Proved part (pyvc), relative to the verdict on component types (is_type_compatible as an assumed pure relation): the combination rules of the statement - _all_types_compatible (union into union: every source member is accepted by some target member) and _compare_generic_type_args (unparametrised on either side: compatible; otherwise covariant, argument by argument). The sentence 'no deductive part' above refers to is_type_compatible itself.")
+LEVEL_TEXT += (" Also proved: _handle_union_types (the statement's union rule: both unions -> every source member accepted by some target member; a union source needs all members accepted; a union target needs one; otherwise no verdict), relative to is_type_compatible on the members as an assumed pure relation and typing.get_origin / get_args as assumed pure functions; the union-into-union case goes through the proved contract of _all_types_compatible.")
+LEVEL_TEXT += (" And _check_identical_or_any (the base case: an unresolvable hint, identical types, Any required, or a missing annotation on either side; type objects are opaque, == on them is equality of the views).")
 LEVEL_NOTE = ("Bounds: atoms {int,bool,float,str,bytes,NoneType}, constructors list/set/tuple(2)/dict/Union/Optional/"
               "Annotated/Array/TypeVar, depth <=2 exhaustive for pairs (sampled at depth 3 in the thorough tier). Reading "
               "fixed here (from the statement 'every value of type A is acceptable where B is required'): Any as a source "
               "is only accepted by Any / missing annotation / TypeVar; bool is a subclass of int; no numeric tower.")
 TECHNIQUE = ("bounded contract checking against a reference subtype relation; the combinators _all_types_compatible and "
              "_compare_generic_type_args discharged by z3 relative to the verdict on component types")
+TECHNIQUE += ('; _handle_union_types discharged by z3')
+TECHNIQUE += ('; _check_identical_or_any discharged by z3')
 EXPLANATION = LEVEL_TEXT
 RULE = ("all ordered pairs of generated annotations; distinct = distinct (A, B); non-trivial = A or B is not an atom")
 TRUSTED_BASE = ["reference subtype relation in props/C16.py", "pyvc/z3 for the two combinators",
@@ -45,7 +49,13 @@ def proof_items():
     from contracts import typing_c
     from vf.driver import ProofItem
     return [ProofItem(typing_c.all_types_compatible, gen=typing_c.gen),
-            ProofItem(typing_c.compare_generic_type_args, gen=typing_c.gen)]
+            ProofItem(typing_c.compare_generic_type_args, gen=typing_c.gen),
+            # the statement's rule for unions: a union source needs all members accepted, a union target needs one
+            ProofItem(typing_c.handle_union_types, gen=typing_c.hu_gen,
+                      registry=lambda: {**{c.short: c for c in typing_c.UNION}, **{c.name: c for c in typing_c.UNION}}),
+            # the base case: an unresolvable hint, identical types, Any required, or no annotation on either side
+            ProofItem(typing_c.check_identical_or_any, gen=typing_c.cia_gen, call=typing_c.cia_call,
+                      registry=lambda: {**{c.short: c for c in typing_c.IDENT}, **{c.name: c for c in typing_c.IDENT}})]
 
 
 # ---- annotation terms: plain data so that the reference does not depend on typing introspection --------------------
